@@ -292,6 +292,47 @@ var emlCorpus = []string{
 	"From: a@b.c\r\nContent-Type: multipart/mixed; boundary=B\r\n\r\n--B\r\nContent-Disposition: inline; filename=\"a\r\nContent-ID: <x>\r\n\r\ndata\r\n--B--\r\n",
 }
 
+// emlPartGrid: every combination of multipart kind x header set of one part x content of that part x position
+// x nesting, written out by hand (no generated message looks like most of these)
+func emlPartGrid() []string {
+	var out []string
+	headerSets := []string{"", "Content-Transfer-Encoding: 7bit\r\n", "Content-Type: text/plain\r\n", "Content-Type:\r\n", "Content-Disposition: attachment\r\n",
+		"Content-Disposition: inline\r\nContent-ID: <x@y>\r\n", "X-Other: 1\r\n", "Content-Type: multipart/alternative\r\n"}
+	contents := []string{"", " \r\n", "\r\n\r\n", "text\r\n"}
+	good := "Content-Type: text/plain; charset=UTF-8\r\nContent-Transfer-Encoding: 7bit\r\n\r\nhello\r\n"
+	for _, kind := range []string{"mixed", "alternative", "related"} {
+		for _, hs := range headerSets {
+			for _, ct := range contents {
+				odd := hs + "\r\n" + ct
+				for pos := 0; pos < 3; pos++ {
+					parts := []string{good, good}
+					switch pos {
+					case 0:
+						parts = []string{odd, good}
+					case 1:
+						parts = []string{good, odd, good}
+					default:
+						parts = []string{odd}
+					}
+					body := ""
+					for _, p := range parts {
+						body += "--B\r\n" + p + "\r\n"
+					}
+					body += "--B--\r\n"
+					top := "From: a@b.c\r\nTo: d@e.f\r\nSubject: grid\r\nMIME-Version: 1.0\r\n"
+					out = append(out, top+"Content-Type: multipart/"+kind+"; boundary=B\r\n\r\n"+body)
+					if pos == 0 {
+						// the same layer nested in a multipart/mixed
+						inner := strings.ReplaceAll(body, "--B", "--I")
+						out = append(out, top+"Content-Type: multipart/mixed; boundary=B\r\n\r\n--B\r\nContent-Type: multipart/"+kind+"; boundary=I\r\n\r\n"+inner+"\r\n--B--\r\n")
+					}
+				}
+			}
+		}
+	}
+	return out
+}
+
 func init() {
 	register(Suite{Name: "c09-eml-total", Property: "C09",
 		Rule: "EMLToMsgFromString / EMLToMsgFromReader on (a) renderings of generated messages (single-part and nested multipart), (b) structure-aware mutations of them (parameters truncated, emptied, unquoted, duplicated, re-quoted; boundaries missing or duplicated; encodings mismatched; lines deleted; truncation; byte noise), (c) arbitrary bytes, (d) readers failing at an offset; checks: no panic, returns within 3 s; non-trivial = mutated or failing reader; distinct by input bytes; a corpus of past failures runs first",
@@ -323,6 +364,9 @@ func init() {
 			}
 			for _, s := range emlCorpus {
 				check([]byte(s), "corpus", -1)
+			}
+			for _, s := range emlPartGrid() {
+				check([]byte(s), "part-grid", -1)
 			}
 			n := c.N(3000, 300000)
 			for i := 0; i < n; i++ {
@@ -398,7 +442,25 @@ func roundtripCase(c *Ctx) {
 	}
 	nf := r.Intn(3)
 	for i := 0; i < nf; i++ {
-		spc.Files = append(spc.Files, FileSpec{Attach: r.Chance(70), Name: c10Names[r.Intn(len(c10Names))], Content: genBody(r, genLen(r, 200))})
+		f := FileSpec{Attach: r.Chance(70), Name: c10Names[r.Intn(len(c10Names))], Content: genBody(r, genLen(r, 200))}
+		if r.Chance(30) {
+			// a text file transferred as it is (8bit) or as 7bit: content that survives without an encoding (CRLF line
+			// breaks, no NUL, short lines; ASCII only for 7bit)
+			txt := canonCRLF([]byte(strings.ToValidUTF8(string(genBody(r, genLen(r, 200))), "?")))
+			txt = bytes.ReplaceAll(txt, []byte("\x00"), []byte("0"))
+			f.Enc = "8bit"
+			if r.Bool() {
+				f.Enc = "7bit"
+				for k, b := range txt {
+					if b >= 0x80 {
+						txt[k] = 'x'
+					}
+				}
+			}
+			f.Content = txt
+			f.CType = "text/plain"
+		}
+		spc.Files = append(spc.Files, f)
 	}
 	roundtripCheck(c, spc, subject)
 }
